@@ -72,6 +72,9 @@ var Fragments = []Fragment{
 	{Name: "wref-bad", Class: "must", Leaves: Conf{"/cons/ref[name=w2]/wref": "nosuch"}},
 	{Name: "chk-ok", Leaves: Conf{"/cons/ref[name=c1]/svcname": "a", "/cons/ref[name=c1]/chk": "c"}},
 	{Name: "chk-bad", Class: "must", Leaves: Conf{"/cons/ref[name=c2]/chk": "c"}},
+	// a must that only holds while a defaulted leaf is set explicitly to its non-default value
+	{Name: "defmode-off-dep2", Leaves: Conf{"/cons/defmode": "off", "/cons/defdep2": "x"}},
+	{Name: "dep2-only", Class: "must", Leaves: Conf{"/cons/defdep2": "x"}},
 }
 
 func FragmentIndex(name string) int {
